@@ -24,6 +24,27 @@
 //!  * the arm `lir::Instruction::ConstantAddress` of the code generator
 //!    (src/codegen/mod.rs): where the pointer comes from, in order
 //!    (`cgConstantAddress`).
+//!
+//! `c14edges` → `Generated/C14Edges.lean`: where the reference graph gets its
+//! edges.  `resolve_expression_path` (src/typechecker/expr.rs) is walked path by
+//! path: for every exit `Ok(ResolvedPath::X …)` of every arm of
+//! `match &dec.kind` the table `exits` says under which condition
+//! `self.references.add_edge(ctx.item, dec.name)` has been executed before it
+//! (`always`, `never`, or for which `ValueKind`s).  An `add_edge` in a position
+//! the walk does not understand is an extraction failure.
+//!
+//! `c14ctx` → `Generated/C14Ctx.lean`: `context_check` and
+//! `determine_uses_context` (src/typechecker/value_cycle.rs) as lists of guarded
+//! steps (`checkSteps`, `determineSteps`): conditions and actions are classified
+//! by what they do (a kind test may be spelled as a pattern or as a call of a
+//! private predicate whose body is that pattern); anything else is an extraction
+//! failure.  `Model/TarjanCtxShape` says which lists `Model/Tarjan.determine`
+//! and `contextLoop` were written from.
+//!
+//! `c14scc` → `Generated/C14Scc.lean`: likewise `find_compilation_order`, `tarjan`,
+//! `strongly_connect` and `State::update_lowlink` as nested guarded steps
+//! (`Model/TarjanSccShape` holds what `Model/Tarjan.lean` transcribes).
+//!
 //! Every statement of these arms must be one the translator knows: a statement
 //! that consults or updates anything else (a table of earlier reads, a flag) is
 //! an extraction failure.
@@ -35,7 +56,7 @@ use std::collections::HashMap;
 use std::path::Path;
 use syn::visit::Visit;
 
-pub const TARGETS: &[Target] = &[("c14emit", "C14Emit", c14emit as Gen), ("c14read", "C14Read", c14read as Gen)];
+pub const TARGETS: &[Target] = &[("c14emit", "C14Emit", c14emit as Gen), ("c14read", "C14Read", c14read as Gen), ("c14edges", "C14Edges", c14edges as Gen), ("c14ctx", "C14Ctx", c14ctx as Gen), ("c14scc", "C14Scc", c14scc as Gen)];
 
 fn norm<T: ToTokens>(t: &T) -> String {
     t.to_token_stream().to_string().replace(' ', "")
@@ -700,5 +721,554 @@ fn c14read(repo: &Path) -> Result<String, String> {
     s.push_str("/-- code generator, arm `lir::Instruction::ConstantAddress { to, name }`: where the pointer comes from, in order -/\n");
     s.push_str(&format!("def cgConstantAddress : List CgAddrAct := {}\n", lean_list(&addr)));
     s.push_str("\nend RotoV.Gen.C14Read\n");
+    Ok(s)
+}
+
+
+// ---------------------------------------------------------------------------
+// c14edges: on which paths of `resolve_expression_path` the edge is recorded
+
+#[derive(Clone, PartialEq, Debug)]
+enum EdgeGuard {
+    Never,
+    Always,
+    Kinds(Vec<String>),
+}
+
+impl EdgeGuard {
+    fn meet(&self, o: &EdgeGuard) -> EdgeGuard {
+        use EdgeGuard::*;
+        match (self, o) {
+            (Never, _) | (_, Never) => Never,
+            (Always, x) | (x, Always) => x.clone(),
+            (Kinds(a), Kinds(b)) => {
+                let v: Vec<String> = a.iter().filter(|k| b.contains(k)).cloned().collect();
+                if v.is_empty() { Never } else { Kinds(v) }
+            }
+        }
+    }
+    fn lean(&self) -> String {
+        match self {
+            EdgeGuard::Never => ".never".into(),
+            EdgeGuard::Always => ".always".into(),
+            EdgeGuard::Kinds(k) => format!(".kinds [{}]", k.iter().map(|x| format!(".{x}")).collect::<Vec<_>>().join(", ")),
+        }
+    }
+}
+
+const ADD_EDGE: &str = "self.references.add_edge(ctx.item,dec.name)";
+
+struct EdgeWalk {
+    arm: &'static str,
+    exits: Vec<(&'static str, String, EdgeGuard)>,
+}
+
+/// does the expression mention `add_edge` or build a `ResolvedPath`?
+fn mentions_edge_or_exit<T: ToTokens>(t: &T) -> bool {
+    let s = norm(t);
+    s.contains("add_edge") || s.contains("ResolvedPath::")
+}
+
+/// `ValueKind::Constant | ValueKind::Context(..)` ↦ [constant, context]
+fn value_kinds(p: &syn::Pat) -> Option<Vec<String>> {
+    let alts: Vec<&syn::Pat> = match p {
+        syn::Pat::Or(o) => o.cases.iter().collect(),
+        x => vec![x],
+    };
+    let mut out = vec![];
+    for a in alts {
+        let s = norm(a);
+        let k = match s.as_str() {
+            "ValueKind::Constant" => "constant",
+            "ValueKind::Context(..)" | "ValueKind::Context(_)" => "context",
+            "ValueKind::Local" => "localV",
+            _ => return None,
+        };
+        out.push(k.to_string());
+    }
+    Some(out)
+}
+
+impl EdgeWalk {
+    fn block(&mut self, b: &syn::Block, st: EdgeGuard) -> Result<EdgeGuard, String> {
+        let mut st = st;
+        for s in &b.stmts {
+            st = self.stmt(s, st)?;
+        }
+        Ok(st)
+    }
+
+    fn stmt(&mut self, s: &syn::Stmt, st: EdgeGuard) -> Result<EdgeGuard, String> {
+        match s {
+            syn::Stmt::Local(l) => {
+                if is_verif_cfg(&l.attrs) {
+                    return Ok(st);
+                }
+                let mut st = st;
+                if let Some(init) = &l.init {
+                    st = self.expr(&init.expr, st)?;
+                    if let Some((_, div)) = &init.diverge {
+                        // `let … else { … }`: the else block leaves the function
+                        self.expr(div, st.clone())?;
+                    }
+                }
+                Ok(st)
+            }
+            syn::Stmt::Expr(e, _) => self.expr(e, st),
+            syn::Stmt::Macro(m) => {
+                if mentions_edge_or_exit(&m.mac.tokens) {
+                    return Err(format!("resolve_expression_path: `{}` inside a macro", norm(&m.mac)));
+                }
+                Ok(st)
+            }
+            syn::Stmt::Item(_) => Ok(st),
+        }
+    }
+
+    fn expr(&mut self, e: &syn::Expr, st: EdgeGuard) -> Result<EdgeGuard, String> {
+        if !mentions_edge_or_exit(e) {
+            return Ok(st);
+        }
+        match e {
+            syn::Expr::MethodCall(m) if m.method == "add_edge" => {
+                if is_verif_cfg(&m.attrs) {
+                    return Ok(st);
+                }
+                if norm(m) == ADD_EDGE {
+                    Ok(EdgeGuard::Always)
+                } else {
+                    Err(format!("resolve_expression_path: edge `{}` is not from the current item to the resolved declaration", norm(m)))
+                }
+            }
+            syn::Expr::Return(r) => match &r.expr {
+                Some(x) => self.expr(x, st),
+                None => Ok(st),
+            },
+            syn::Expr::Paren(p) => self.expr(&p.expr, st),
+            syn::Expr::Call(c) if norm(&c.func) == "Ok" && c.args.len() == 1 => {
+                let a = norm(&c.args[0]);
+                match a.strip_prefix("ResolvedPath::") {
+                    Some(rest) => {
+                        let ctor: String = rest.chars().take_while(|ch| ch.is_alphanumeric() || *ch == '_').collect();
+                        self.exits.push((self.arm, ctor, st.clone()));
+                        Ok(st)
+                    }
+                    None => Err(format!("resolve_expression_path: `{a}` returned in a form the translator does not know")),
+                }
+            }
+            syn::Expr::Call(c) if norm(&c.func) == "Err" => Ok(st),
+            syn::Expr::Block(b) => self.block(&b.block, st),
+            syn::Expr::If(i) => {
+                // the kind test: `if let ValueKind::… | … = kind { add_edge }`
+                if let syn::Expr::Let(l) = &*i.cond {
+                    if let Some(kinds) = value_kinds(&l.pat) {
+                        let sc = norm(&l.expr);
+                        if (sc == "kind" || sc == "*kind") && i.else_branch.is_none() {
+                            let inner = self.block(&i.then_branch, st.clone())?;
+                            return Ok(match (&st, &inner) {
+                                (EdgeGuard::Never, EdgeGuard::Always) => EdgeGuard::Kinds(kinds),
+                                (EdgeGuard::Kinds(k0), EdgeGuard::Always) => {
+                                    let mut v = k0.clone();
+                                    for k in kinds {
+                                        if !v.contains(&k) {
+                                            v.push(k);
+                                        }
+                                    }
+                                    EdgeGuard::Kinds(v)
+                                }
+                                _ => st.meet(&inner),
+                            });
+                        }
+                    }
+                }
+                if mentions_edge_or_exit(&i.cond) {
+                    return Err(format!("resolve_expression_path: condition `{}`", norm(&i.cond)));
+                }
+                let a = self.block(&i.then_branch, st.clone())?;
+                let b = match &i.else_branch {
+                    Some((_, x)) => self.expr(x, st.clone())?,
+                    None => st.clone(),
+                };
+                Ok(a.meet(&b))
+            }
+            syn::Expr::While(w) => {
+                if mentions_edge_or_exit(&w.cond) {
+                    return Err(format!("resolve_expression_path: loop condition `{}`", norm(&w.cond)));
+                }
+                let a = self.block(&w.body, st.clone())?;
+                Ok(st.meet(&a))
+            }
+            syn::Expr::ForLoop(f) => {
+                let a = self.block(&f.body, st.clone())?;
+                Ok(st.meet(&a))
+            }
+            syn::Expr::Loop(l) => {
+                let a = self.block(&l.body, st.clone())?;
+                Ok(st.meet(&a))
+            }
+            syn::Expr::Match(m) => {
+                if mentions_edge_or_exit(&m.expr) {
+                    return Err(format!("resolve_expression_path: match on `{}`", norm(&m.expr)));
+                }
+                let mut out: Option<EdgeGuard> = None;
+                for a in &m.arms {
+                    let x = self.expr(&a.body, st.clone())?;
+                    out = Some(match out {
+                        None => x,
+                        Some(o) => o.meet(&x),
+                    });
+                }
+                Ok(out.unwrap_or(st))
+            }
+            other => Err(format!(
+                "resolve_expression_path: `{}` records an edge or builds the result in a position the translator does not know",
+                norm(other)
+            )),
+        }
+    }
+}
+
+fn edge_exits(file: &syn::File) -> Result<Vec<(&'static str, String, EdgeGuard)>, String> {
+    let f = find::func(file, "resolve_expression_path", None)?;
+    let ms = find::matches_on(&f.block, "&dec.kind");
+    if ms.len() != 1 {
+        return Err(format!("resolve_expression_path: {} matches on `&dec.kind`", ms.len()));
+    }
+    // no edge may be recorded outside the match (it would not know the declaration kind)
+    for st in &f.block.stmts {
+        let is_match = matches!(st, syn::Stmt::Expr(syn::Expr::Match(m), _) if norm(&m.expr) == "&dec.kind");
+        if !is_match && norm(st).contains("add_edge") {
+            return Err("resolve_expression_path: add_edge outside `match &dec.kind`".into());
+        }
+    }
+    let mut exits = vec![];
+    for arm in &ms[0].arms {
+        let p = norm(&arm.pat);
+        let name: &'static str = if p.contains("DeclarationKind::Function(Some") || p.contains("DeclarationKind::Method(Some") {
+            "function"
+        } else if p.starts_with("DeclarationKind::Value(") {
+            "value"
+        } else if p.contains("DeclarationKind::Enum(Some") {
+            "enumCtor"
+        } else {
+            "other"
+        };
+        let mut w = EdgeWalk { arm: name, exits: vec![] };
+        w.expr(&arm.body, EdgeGuard::Never)?;
+        if name == "other" && !w.exits.is_empty() {
+            return Err(format!("resolve_expression_path: arm `{p}` yields a value; the translator does not know this declaration kind"));
+        }
+        exits.extend(w.exits);
+    }
+    Ok(exits)
+}
+
+fn c14edges(repo: &Path) -> Result<String, String> {
+    let ex = find::parse(repo, "src/typechecker/expr.rs")?;
+    let exits = edge_exits(&ex)?;
+    let res_name = |c: &str| -> Result<&'static str, String> {
+        Ok(match c {
+            "Function" => "function",
+            "Method" => "method",
+            "Value" => "value",
+            "StaticMethod" => "staticMethod",
+            "EnumConstructor" => "enumCtor",
+            x => return Err(format!("resolve_expression_path: unknown result `ResolvedPath::{x}`")),
+        })
+    };
+    let mut rows = vec![];
+    for (arm, ctor, g) in &exits {
+        rows.push(format!("  ⟨.{}, .{}, {}⟩", arm, res_name(ctor)?, g.lean()));
+    }
+    let mut s = String::new();
+    s.push_str("/- GENERATED by /verif/extract (target c14edges) from src/typechecker/expr.rs — do not edit. -/
+import RotoV.Model.TarjanEdges
+namespace RotoV.Gen.C14Edges
+open RotoV.TarjanEdges
+
+");
+    s.push_str("/-- `resolve_expression_path`: every exit `Ok(ResolvedPath::…)` of every arm of `match &dec.kind`, in source order, with the condition under which `self.references.add_edge(ctx.item, dec.name)` has run before it -/
+");
+    s.push_str(&format!("def exits : List Exit := [\n{}\n]\n", rows.join(",\n")));
+    s.push_str("\nend RotoV.Gen.C14Edges\n");
+    Ok(s)
+}
+
+
+// ---------------------------------------------------------------------------
+// c14ctx: `context_check` / `determine_uses_context` as guarded steps
+
+/// `norm` without the trailing commas rustfmt puts into broken-up argument lists
+fn normc<T: ToTokens>(t: &T) -> String {
+    norm(t).replace(",)", ")").replace(",}", "}")
+}
+
+/// does `e` test `dec.kind` for `ValueKind::<which>` — as a pattern, or through a private
+/// predicate `fn p(dec) -> bool` of the file whose body is that pattern?
+fn is_kind_test(file: &syn::File, e: &str, which: &str) -> bool {
+    let pat = format!("DeclarationKind::Value(ValueKind::{which}");
+    if e.contains(&pat) && e.contains("=dec.kind") {
+        return true;
+    }
+    // `is_constant(&dec)` / `Self::is_constant(dec)` / `dec.is_constant()`
+    for name in ident_calls(e) {
+        if let Ok(f) = find::func(file, &name, None) {
+            let b = normc(&f.block);
+            if b.contains(&pat) && !b.contains("add_edge") && f.block.stmts.len() == 1 {
+                return true;
+            }
+        }
+    }
+    false
+}
+
+/// identifiers followed by `(` in a normalised expression
+fn ident_calls(e: &str) -> Vec<String> {
+    let mut out = vec![];
+    let b = e.as_bytes();
+    let mut i = 0;
+    while i < b.len() {
+        if b[i].is_ascii_alphabetic() || b[i] == b'_' {
+            let st = i;
+            while i < b.len() && (b[i].is_ascii_alphanumeric() || b[i] == b'_') {
+                i += 1;
+            }
+            if i < b.len() && b[i] == b'(' {
+                out.push(e[st..i].to_string());
+            }
+        } else {
+            i += 1;
+        }
+    }
+    out
+}
+
+fn ctx_action(s: &syn::Stmt) -> Result<Option<&'static str>, String> {
+    let n = normc(s);
+    let n = n.trim_end_matches(';');
+    Ok(Some(match n {
+        "return*b" => "returnCached",
+        "returntrue" | "true" => "returnTrue",
+        "returnfalse" | "false" => "returnFalse",
+        "uses_context.insert(*name,true)" => "insertTrue",
+        "uses_context.insert(*name,false)" => "insertFalse",
+        "visited.insert(*name)" => "markVisited",
+        "returnErr(self.error_constant_uses_context(dec.name.ident,dec.id))" => "errUsesContext",
+        "Ok(())" => "returnOk",
+        "letdec=self.type_info.scope_graph.get_declaration(*name)" => return Ok(None),
+        "letmutvisited=BTreeSet::new()" | "letmutuses_context=BTreeMap::new()" => return Ok(None),
+        _ => return Err(format!("context check: statement `{n}` is not one the translator knows")),
+    }))
+}
+
+fn ctx_steps(file: &syn::File, b: &syn::Block, out: &mut Vec<String>) -> Result<(), String> {
+    for st in &b.stmts {
+        match st {
+            syn::Stmt::Local(l) if is_verif_cfg(&l.attrs) => {}
+            syn::Stmt::Expr(syn::Expr::If(i), _) => {
+                if i.else_branch.is_some() {
+                    return Err(format!("context check: `if … else` `{}`", norm(&i.cond)));
+                }
+                let c = normc(&i.cond);
+                let recurses = c.contains("self.determine_uses_context(");
+                let cond = if c == "letSome(b)=uses_context.get(name)" {
+                    "cached"
+                } else if c == "visited.contains(name)" {
+                    "onStack"
+                } else if recurses && c.ends_with("self.determine_uses_context(&mutuses_context,&mutvisited,name)") && is_kind_test(file, &c, "Constant") {
+                    "constAndUses"
+                } else if c == "self.determine_uses_context(uses_context,visited,reference)" {
+                    "recurse"
+                } else if !recurses && is_kind_test(file, &c, "Context") {
+                    "isCtx"
+                } else {
+                    return Err(format!("context check: condition `{c}` is not one the translator knows"));
+                };
+                let mut acts = vec![];
+                for s2 in &i.then_branch.stmts {
+                    if let Some(a) = ctx_action(s2)? {
+                        acts.push(format!(".{a}"));
+                    }
+                }
+                out.push(format!(".guard .{cond} [{}]", acts.join(", ")));
+            }
+            syn::Stmt::Expr(syn::Expr::ForLoop(f), _) => {
+                let it = normc(&f.expr);
+                let pat = norm(&f.pat);
+                let kind = if it == "self.references.references.get(name).into_iter().flatten()" && pat == "reference" {
+                    "forRefs"
+                } else if it == "self.references.references.keys()" && pat == "name" {
+                    "forKeys"
+                } else {
+                    return Err(format!("context check: loop `for {pat} in {it}`"));
+                };
+                let mut inner = vec![];
+                ctx_steps(file, &f.body, &mut inner)?;
+                out.push(format!(".{kind} [{}]", inner.join(", ")));
+            }
+            other => {
+                if let Some(a) = ctx_action(other)? {
+                    out.push(format!(".act .{a}"));
+                }
+            }
+        }
+    }
+    Ok(())
+}
+
+fn c14ctx(repo: &Path) -> Result<String, String> {
+    let file = find::parse(repo, "src/typechecker/value_cycle.rs")?;
+    let cc = find::func(&file, "context_check", None)?;
+    let du = find::func(&file, "determine_uses_context", None)?;
+    if cc.sig.inputs.len() != 1 {
+        return Err("context_check: takes more than `&self` (the model's check looks at the reference graph only)".into());
+    }
+    let mut check = vec![];
+    ctx_steps(&file, &cc.block, &mut check)?;
+    let mut det = vec![];
+    ctx_steps(&file, &du.block, &mut det)?;
+    // where it is called from: after the two cycle tests, before the order is returned
+    let fco = find::func(&file, "find_compilation_order", None)?;
+    let stmts: Vec<String> = fco.block.stmts.iter().map(|s| normc(s)).collect();
+    let pos_tarjan = stmts.iter().position(|s| s.contains("=tarjan(&self.references.references)"));
+    let pos_check = stmts.iter().position(|s| s == "self.context_check()?;");
+    let last = stmts.last().cloned().unwrap_or_default();
+    let called = match (pos_tarjan, pos_check) {
+        (Some(a), Some(b)) if a < b && b + 2 == stmts.len() && last == "Ok(components.into_iter().flatten().collect())" => true,
+        _ => return Err("find_compilation_order: `self.context_check()?;` is not the last step before `Ok(components.into_iter().flatten().collect())`".into()),
+    };
+    let mut s = String::new();
+    s.push_str("/- GENERATED by /verif/extract (target c14ctx) from src/typechecker/value_cycle.rs — do not edit. -/\nimport RotoV.Model.TarjanCtxShape\nnamespace RotoV.Gen.C14Ctx\nopen RotoV.TarjanCtxShape\n\n");
+    s.push_str("/-- `context_check`, statement by statement -/\n");
+    s.push_str(&format!("def checkSteps : List Step := [\n  {}\n]\n\n", check.join(",\n  ")));
+    s.push_str("/-- `determine_uses_context`, statement by statement -/\n");
+    s.push_str(&format!("def determineSteps : List Step := [\n  {}\n]\n\n", det.join(",\n  ")));
+    s.push_str("/-- `find_compilation_order` ends with `self.context_check()?; Ok(components.into_iter().flatten().collect())`, after `tarjan` -/\n");
+    s.push_str(&format!("def checkedBeforeOrderReturned : Bool := {called}\n"));
+    s.push_str("\nend RotoV.Gen.C14Ctx\n");
+    Ok(s)
+}
+
+
+// ---------------------------------------------------------------------------
+// c14scc: `find_compilation_order`, `tarjan`, `strongly_connect`, `update_lowlink` as nested steps
+
+fn scc_action(n: &str) -> Result<Option<&'static str>, String> {
+    Ok(Some(match n {
+        "letindex=state.next_index" => "takeIndex",
+        "state.next_index+=1" => "bumpIndex",
+        "state.vertices.insert(v,VertexState{index,lowlink:index})" => "insertVertex",
+        "state.stack.push(v)" => "pushV",
+        "strongly_connect(references,state,*w)" => "recurse",
+        "letnew=state.vertices[w].lowlink" => "newFromLowlink",
+        "letnew=state.vertices[w].index" => "newFromIndex",
+        "state.update_lowlink(v,new)" => "updateLowlink",
+        "letmutcomponent=Vec::new()" => "newComponent",
+        "component.push(w)" => "componentPush",
+        "break" => "breakLoop",
+        "state.components.push(component)" => "pushComponent",
+        "letcurrent=&mutself.vertices.get_mut(&v).unwrap().lowlink" => "takeLowlink",
+        "*current=(*current).min(new)" => "minAssign",
+        "letmutstate=State::<V>::new()" => "newState",
+        "strongly_connect(edges,&mutstate,*v)" => "recurseTop",
+        "state.components" => "returnComponents",
+        "returnErr(self.error_recursive_constant(dec.name.ident,dec.id))" => "errRecursive",
+        "letcomponents=tarjan(&self.references.references)" => "callTarjan",
+        "self.context_check()?" => "callContextCheck",
+        "Ok(components.into_iter().flatten().collect())" => "returnFlattened",
+        // pure lookups
+        "letv_state=&state.vertices[&v]" | "letdec=self.type_info.scope_graph.get_declaration(*name)" => return Ok(None),
+        _ => return Err(format!("order / SCC pass: statement `{n}` is not one the translator knows")),
+    }))
+}
+
+fn scc_cond(file: &syn::File, c: &str) -> Result<&'static str, String> {
+    Ok(match c {
+        "!state.vertices.contains_key(w)" => "unvisited",
+        "!state.vertices.contains_key(v)" => "unvisitedTop",
+        "state.stack.contains(w)" => "onStack",
+        "v_state.index==v_state.lowlink" => "isRoot",
+        "w==v" | "v==w" => "isV",
+        "component.len()>1" => "lenGt1",
+        _ if c.ends_with("&&refs.contains(name)") && is_kind_test(file, c, "Constant") => "constAndSelfRef",
+        _ if !c.contains("&&") && !c.contains("||") && is_kind_test(file, c, "Constant") => "isConst",
+        _ => return Err(format!("order / SCC pass: condition `{c}` is not one the translator knows")),
+    })
+}
+
+fn scc_if(file: &syn::File, i: &syn::ExprIf) -> Result<String, String> {
+    let c = scc_cond(file, &normc(&i.cond))?;
+    let mut th = vec![];
+    scc_steps(file, &i.then_branch, &mut th)?;
+    let el = match &i.else_branch {
+        None => String::new(),
+        Some((_, e)) => match &**e {
+            syn::Expr::If(i2) => scc_if(file, i2)?,
+            syn::Expr::Block(b) => {
+                let mut v = vec![];
+                scc_steps(file, &b.block, &mut v)?;
+                v.join(", ")
+            }
+            x => return Err(format!("order / SCC pass: else `{}`", normc(x))),
+        },
+    };
+    Ok(format!(".ite .{c} [{}] [{}]", th.join(", "), el))
+}
+
+fn scc_steps(file: &syn::File, b: &syn::Block, out: &mut Vec<String>) -> Result<(), String> {
+    for st in &b.stmts {
+        match st {
+            syn::Stmt::Local(l) if is_verif_cfg(&l.attrs) => {}
+            syn::Stmt::Expr(e, _) if matches!(e, syn::Expr::MethodCall(m) if is_verif_cfg(&m.attrs)) => {}
+            syn::Stmt::Expr(syn::Expr::If(i), _) => out.push(scc_if(file, i)?),
+            syn::Stmt::Expr(syn::Expr::ForLoop(f), _) => {
+                let head = format!("for {} in {}", normc(&f.pat), normc(&f.expr));
+                let kind = match head.as_str() {
+                    "for w in references.get(&v).into_iter().flatten()" => "forRefs",
+                    "for v in edges.keys()" => "forKeys",
+                    "for (name,refs) in &self.references.references" => "forEdges",
+                    "for component in &components" => "forComponents",
+                    "for name in component" => "forMembers",
+                    _ => return Err(format!("order / SCC pass: loop `{head}`")),
+                };
+                let mut inner = vec![];
+                scc_steps(file, &f.body, &mut inner)?;
+                out.push(format!(".{kind} [{}]", inner.join(", ")));
+            }
+            syn::Stmt::Expr(syn::Expr::While(w), _) => {
+                if normc(&w.cond) != "letSome(w)=state.stack.pop()" {
+                    return Err(format!("order / SCC pass: loop `while {}`", normc(&w.cond)));
+                }
+                let mut inner = vec![];
+                scc_steps(file, &w.body, &mut inner)?;
+                out.push(format!(".whilePop [{}]", inner.join(", ")));
+            }
+            other => {
+                let n = normc(other);
+                if let Some(a) = scc_action(n.trim_end_matches(';'))? {
+                    out.push(format!(".act .{a}"));
+                }
+            }
+        }
+    }
+    Ok(())
+}
+
+fn c14scc(repo: &Path) -> Result<String, String> {
+    let file = find::parse(repo, "src/typechecker/value_cycle.rs")?;
+    let mut s = String::new();
+    s.push_str("/- GENERATED by /verif/extract (target c14scc) from src/typechecker/value_cycle.rs — do not edit. -/\nimport RotoV.Model.TarjanSccShape\nnamespace RotoV.Gen.C14Scc\nopen RotoV.TarjanSccShape\n\n");
+    for (fname, imp, def) in [
+        ("find_compilation_order", None, "orderSteps"),
+        ("tarjan", None, "tarjanSteps"),
+        ("strongly_connect", None, "strongConnectSteps"),
+        ("update_lowlink", Some("State"), "updateLowlinkSteps"),
+    ] {
+        let f = find::func(&file, fname, imp)?;
+        let mut v = vec![];
+        scc_steps(&file, &f.block, &mut v)?;
+        s.push_str(&format!("/-- `{fname}`, statement by statement -/\ndef {def} : List Step := [\n  {}\n]\n\n", v.join(",\n  ")));
+    }
+    s.push_str("end RotoV.Gen.C14Scc\n");
     Ok(s)
 }
